@@ -970,6 +970,8 @@ pub struct GenCfg {
     pub p_badsession: f64,
     /// systematic receive-window table walk (C10): stride through (uplink DR, RX1 offset, RX2 DR, RxDelay)
     pub rxwin_stride: usize,
+    /// systematic single-channel walk (C04 / C09): 0 off, 1 ascending, 2 descending channel index
+    pub onlych: u8,
 }
 
 pub struct Gen {
@@ -1260,9 +1262,65 @@ impl Gen {
         Some(Op::Send { port: 2, data: vec![phase as u8], confirmed: phase == 2 && tuple % 2 == 0, draws, plan })
     }
 
+    /// Single-channel walk: for every channel index k of the plan (dynamic: 0..15, defining the channel by
+    /// NewChannelReq when it is not a join channel; fixed: 0..71) an uplink is answered by a LinkADRReq block
+    /// that leaves exactly channel k enabled (fixed plans, 125 kHz: k and k^1, the device insists on two), with a
+    /// data rate the channel supports; three plain uplinks follow.
+    /// Channel selection must terminate and pick channel k whatever the highest defined index is.
+    fn next_onlych(&mut self, v: &View) -> Option<Op> {
+        let region = self.cfg.region.clone();
+        let fixed = region == "US915" || region == "AU915";
+        if !v.joined {
+            return Some(Op::JoinAbp { nwk: self.rng.r#gen(), app: self.rng.r#gen(), addr: self.rng.r#gen() });
+        }
+        let nch = if fixed { 72 } else { 16 };
+        let t = self.walk / 4;
+        let phase = self.walk % 4;
+        self.walk += 1;
+        if t >= nch {
+            return None;
+        }
+        let k = if self.cfg.onlych == 2 { nch - 1 - t } else { t };
+        let mut plan = Proc { tx: "done".into(), ts: 50, fault: -1, ..Default::default() };
+        if phase == 0 {
+            let mut fopts: Vec<u8> = vec![];
+            if fixed {
+                if k < 64 {
+                    let dr = 0u8;
+                    // all 125 kHz channels off but one 500 kHz channel on, channel k on, the 500 kHz channel off again:
+                    // no intermediate mask is empty (the device refuses a command that leaves none enabled)
+                    fopts.extend_from_slice(&[0x03, (dr << 4) | 0x0f, 0x01, 0x00, 0x71]);
+                    // (the fixed plans insist on two enabled 125 kHz channels: k and its neighbour k^1)
+                    let m: u16 = (1 << (k % 16)) | (1 << ((k ^ 1) % 16));
+                    fopts.extend_from_slice(&[0x03, (dr << 4) | 0x0f, m as u8, (m >> 8) as u8, (((k / 16) as u8) << 4) | 1]);
+                    fopts.extend_from_slice(&[0x03, (dr << 4) | 0x0f, 0x00, 0x00, 0x41]);
+                } else {
+                    let dr: u8 = if region == "US915" { 4 } else { 6 };
+                    fopts.extend_from_slice(&[0x03, (dr << 4) | 0x0f, 1u8 << (k - 64), 0x00, 0x71]);
+                }
+            } else {
+                let (lo, _) = band(&region);
+                let f = freq3(lo + 100_000 * (k as u32 + 1));
+                // (re)defining a join channel is refused by the device and changes nothing: harmless
+                fopts.extend_from_slice(&[0x07, k as u8, f[0], f[1], f[2], 0x50]);
+                let m: u16 = 1 << k;
+                fopts.extend_from_slice(&[0x03, 0xff, m as u8, (m >> 8) as u8, 0x01]);
+            }
+            let (nwk, app, addr) = v.keys.unwrap();
+            let net = Net { nwk, app, addr, sent: vec![] };
+            let n = v.fcnt_down.map(|x| x + 1).unwrap_or(0);
+            let b = net.data(n, false, false, &fopts, -1, &[], false, false);
+            plan.rx1.push(Frame { bytes: b, snr: 3, intent: format!("auth:onlych:{k}") });
+        }
+        Some(Op::Send { port: 3, data: vec![k as u8, phase as u8], confirmed: false, draws: vec![], plan })
+    }
+
     pub fn next(&mut self, v: &View) -> Option<Op> {
         if self.cfg.rxwin_stride > 0 {
             return self.next_rxwin(v);
+        }
+        if self.cfg.onlych > 0 {
+            return self.next_onlych(v);
         }
         if v.steps >= self.cfg.max_steps {
             return None;
@@ -1421,7 +1479,7 @@ pub fn vh_mac(a: &Args) {
     let mut h = 0usize;
     for region in &regions {
         for front in &fronts {
-            for _ in 0..hist {
+            for hi in 0..hist {
                 let (fr, classc) = match front.as_str() {
                     "nb" => ("nb", false),
                     "async" => ("async", false),
@@ -1453,6 +1511,7 @@ pub fn vh_mac(a: &Args) {
                     p_downlink, p_cmds, p_reject, p_fault, p_rejoin, ja_enum, p_serde, p_badsession,
                     misuse: profile == "hostile",
                     rxwin_stride: if profile == "rxwin" { a.get_usize("stride", if a.thorough { 1 } else { 3 }) } else { 0 },
+                    onlych: if profile == "onlych" { 1 + (hi % 2) as u8 } else { 0 },
                 });
                 let mut f = |v: &View| g.next(v);
                 if profile != "tx" {
@@ -1495,6 +1554,48 @@ pub fn vh_mac(a: &Args) {
                 }
                 h += 1;
             }
+        }
+    }
+    println!("events={} histories={h}", out.finish());
+}
+
+/// `vh macmc in=FILE fronts=nb,async`: behaviours of the specification (MCMacCmdGen: one per reachable design
+/// state) executed on the real devices.  Each line of FILE is {"region": R, "steps": [{"t": "down", "fopts": [..]} |
+/// {"t": "up"}]}: an ABP session, then one unconfirmed uplink per step; a "down" step delivers, in RX1 (or RX2 for
+/// every second history), an authentic downlink with the next downlink counter carrying the command bytes in FOpts.
+pub fn vh_macmc(a: &Args) {
+    let text = std::fs::read_to_string(a.get("in").expect("in=FILE")).unwrap();
+    let fronts: Vec<String> = a.get("fronts").unwrap_or("nb,async").split(',').map(|s| s.to_string()).collect();
+    let mut out = crate::cli::Shards::create(&a.out, "mac", a.shards);
+    let key = [1u8; 16];
+    let addr = [1u8, 2, 3, 4];
+    let net = Net { nwk: key, app: key, addr, sent: vec![] };
+    let mut h = 0usize;
+    for line in text.lines().filter(|l| !l.trim().is_empty()) {
+        let v: Value = serde_json::from_str(line).unwrap();
+        let region = v["region"].as_str().unwrap().to_string();
+        for front in &fronts {
+            let mut ops = vec![
+                Op::Reset {
+                    region: region.clone(), front: front.clone(), classc: false, board: 0, bias_sb: 0, bias_retries: 1,
+                    lead: 10, buffer: 10, offset: 0, duration: 500, session: None,
+                },
+                Op::JoinAbp { nwk: key, app: key, addr },
+            ];
+            let mut ndown = 0u32;
+            for st in v["steps"].as_array().unwrap() {
+                let mut plan = Proc { tx: "done".into(), ts: 100, fault: -1, ..Default::default() };
+                if st["t"] == "down" {
+                    let fopts: Vec<u8> = st["fopts"].as_array().unwrap().iter().map(|b| b.as_u64().unwrap() as u8).collect();
+                    let bytes = net.data(ndown, false, false, &fopts, -1, &[], false, false);
+                    let f = Frame { bytes, snr: 5, intent: format!("auth:mc:{}", fopts.len()) };
+                    if h % 2 == 0 { plan.rx1.push(f) } else { plan.rx2.push(f) }
+                    ndown += 1;
+                }
+                ops.push(Op::Send { port: 1, data: vec![7], confirmed: false, draws: vec![], plan });
+            }
+            let _ = run_history(out.shard(h), &ops, a.seed ^ h as u64, None);
+            h += 1;
         }
     }
     println!("events={} histories={h}", out.finish());
